@@ -16,8 +16,10 @@ def mk_node_m(kind, idx, reward, next_states, n):
     return cls(player=kind, idx=idx, reward=reward, next_states=next_states, num_states=n, is_final_node=False)
 
 
-def _build(sp, n, kinds, emptied=(), ring=False):
-    if ring:   # second successor fixed to the next state (keeps n=3 within reach)
+def _build(sp, n, kinds, emptied=(), ring=False, fixed_last=False):
+    if fixed_last:   # the last state is an absorbing chance state (used as the final state)
+        succ = [[sp.choice("s%d_%d" % (i, k), n) for k in range(2)] for i in range(n - 1)] + [[n - 1, n - 1]]
+    elif ring:   # second successor fixed to the next state (keeps n=3 within reach)
         succ = [[sp.choice("s%d_0" % i, n), (i + 1) % n] for i in range(n)]
     else:
         succ = [[sp.choice("s%d_%d" % (i, k), n) for k in range(2)] for i in range(n)]
@@ -46,6 +48,10 @@ def _reach_jobs(tier, seed):
     for kinds in itertools.product(KINDS, repeat=2):
         for roles in itertools.product("LUF", repeat=2):
             jobs.append(dict(n=2, kinds=list(kinds), roles=list(roles), _cost=1))
+    for kinds in itertools.product(KINDS, repeat=2):
+        # two listed states in front of an absorbing final state: the smallest shape in which one state's
+        # update can be small while the other's is large
+        jobs.append(dict(n=3, kinds=list(kinds) + [PR], roles=["L", "L", "F"], fixed_last=True, _cost=10))
     if tier == "thorough":
         for kinds in itertools.product(KINDS, repeat=3):
             for roles in ROLES3[:3]:
@@ -56,7 +62,7 @@ def _reach_jobs(tier, seed):
 @harness("tad.loop_reach", props=["C01", "C06"], jobs=_reach_jobs,
          covers=["returned", "no_solution", "unlisted", "final"],
          bounds="n=2: every kind assignment x every successor pair x every role assignment (listed/unlisted/final); "
-                "n=3 (thorough only): all 27 kind assignments x 3 role vectors x all 729 successor "
+                "n=3 with an absorbing final third state: all 9 kind pairs x all 81 successor assignments; n=3 (thorough only): all 27 kind assignments x 3 role vectors x all 729 successor "
                 "assignments; chance probabilities 1/4,3/4; arbitrary pre-state in [0,1]; prune flag symbolic",
          assumes=["pre-state satisfies Inv_reach (0<=v<=1, finals = 1)",
                   "paper step: max/min/convex sums are non-expansive, so a last sweep that moved every entry by <= eps "
@@ -64,9 +70,9 @@ def _reach_jobs(tier, seed):
          desc="real Solver.value_iteration_reachability, last sweep from an arbitrary state: on return every listed state "
               "has Bellman residual <= threshold, unlisted and final states are untouched, the diagnostic vector is seeded, "
               "the sweep count is returned, and 'no solution' is raised iff pruning and state 0 has value exactly 0")
-def loop_reach(sp, n, kinds, roles):
+def loop_reach(sp, n, kinds, roles, fixed_last=False):
     t = tad_merged()
-    succ, states = _build(sp, n, kinds)
+    succ, states = _build(sp, n, kinds, fixed_last=fixed_last)
     pre = []
     for i in range(n):
         if roles[i] == "F":
